@@ -126,7 +126,23 @@ impl Sink for Box<dyn Sink> {
         (**self).put_buf(src)
     }
 }
-impl Sink for Chain<Box<dyn Sink>, Box<dyn Sink>> {
+/// the child of an adapter: forwards EVERY BufMut method to the node behind it, so that the
+/// adapter sees the overrides of the concrete type as it would with `Chain<BytesMut, _>` (the
+/// crate's `impl BufMut for Box<T>` forwards only some methods; it is covered by the `box` node)
+pub struct D(pub Box<dyn Sink>);
+forward_bufmut!(D, |s| &*s.0, |m| &mut *m.0);
+impl Sink for D {
+    fn info(&self, out: &mut String) {
+        self.0.info(out)
+    }
+    fn set_limit(&mut self, path: &[u64], v: usize) -> bool {
+        self.0.set_limit(path, v)
+    }
+    fn put_buf(&mut self, src: Box<dyn Node>) {
+        self.0.put_buf(src)
+    }
+}
+impl Sink for Chain<D, D> {
     fn info(&self, out: &mut String) {
         out.push_str("{\"k\":\"chain\",\"limit\":0,\"a\":");
         self.first_ref().info(out);
@@ -145,7 +161,7 @@ impl Sink for Chain<Box<dyn Sink>, Box<dyn Sink>> {
         self.put(src)
     }
 }
-impl Sink for Limit<Box<dyn Sink>> {
+impl Sink for Limit<D> {
     fn info(&self, out: &mut String) {
         let _ = write!(out, "{{\"k\":\"limit\",\"limit\":{},\"t\":", enc(self.limit()));
         self.get_ref().info(out);
@@ -273,8 +289,8 @@ pub fn build_sink(v: &Value) -> Box<dyn Sink> {
             let cur: &'static mut [MaybeUninit<u8>] = unsafe { std::slice::from_raw_parts_mut(a.as_mut_ptr().add(G) as *mut MaybeUninit<u8>, n) };
             Box::new(UninitSink { cur, arena: ar, n })
         }
-        "chain" => Box::new(build_sink(&v["a"]).chain_mut(build_sink(&v["b"]))),
-        "limit" => Box::new(build_sink(&v["t"]).limit(dec(&v["limit"]))),
+        "chain" => Box::new(D(build_sink(&v["a"])).chain_mut(D(build_sink(&v["b"])))),
+        "limit" => Box::new(D(build_sink(&v["t"])).limit(dec(&v["limit"]))),
         "ref" => Box::new(RefSink { inner: Box::into_raw(build_sink(&v["t"])) }),
         "box" => Box::new(BoxSink(Box::new(build_sink(&v["t"])))),
         other => panic!("unknown sink kind {}", other),
